@@ -1,8 +1,208 @@
 -------------------------------- MODULE App --------------------------------
-(* Application layer - stub, replaced below as the protocol modules land. *)
-EXTENDS Integers, Sequences
-AppPortShift(seg, ctx) == 0
-AppJudge(transport, before, done, seg, ctx, rpl, aux) == {}
-AppRef(transport, before, done, seg, ctx) == << >>
-AppKnownKey(v, transport, before, seg) == "-"
+(***************************************************************************)
+(* The application layer: reference dispatcher (which responder, if any,   *)
+(* must handle a payload - properties C10, C11, C12) and the request /     *)
+(* response relations of the protocols (C13 - C18).                        *)
+(*                                                                         *)
+(* Classify yields a tri-state verdict taken from the property statements: *)
+(*   "must"    - a clean request of the identified protocol: answered, and *)
+(*               the answer satisfies that protocol's relation;            *)
+(*   "mustnot" - one of the faults the statements name: no application     *)
+(*               data in response (silence over UDP, a bare ACK over TCP); *)
+(*   "any"     - the statements do not say; either behaviour is accepted.  *)
+(* Over TCP the stream protocols (HTTP, ONC-RPC) are judged on the byte    *)
+(* stream accepted so far (before \o seg), whatever its segmentation; the  *)
+(* other protocols are judged on a first segment that holds the request.   *)
+(***************************************************************************)
+EXTENDS Integers, Sequences, FiniteSets, TLC, Sig, Http, Ssh, Stun, Dns, Rpc, Smb
+
+Cls(proto, ans, prop, why) == [ proto |-> proto, ans |-> ans, prop |-> prop, why |-> why ]
+
+ClassifyDatagramLike(id, seg, ctx) ==
+    CASE id = "SSH" ->
+            IF SshMust(seg) THEN Cls(id, "must", "C18", "ssh-identification")
+            ELSE IF SshMustNot(seg) THEN Cls(id, "mustnot", "C18", "ssh-unterminated-or-malformed")
+            ELSE Cls(id, "any", "C18", "ssh-unspecified")
+      [] id = "GHOST" -> Cls(id, "must", "C18", "gh0st")
+      [] id = "STUN" ->
+            IF StunCleanRequest(seg) THEN Cls(id, "must", "C15", "stun-binding-request")
+            ELSE Cls(id, "any", "C15", "stun-malformed")
+      [] id = "SMB1" ->
+            IF S1NegotiateCount(seg) > 0 THEN Cls(id, "must", "C17", "smb1-negotiate")
+            ELSE IF S1SessionSetupClean(seg) THEN Cls(id, "must", "C17", "smb1-session-setup")
+            ELSE IF S1IsReply(seg) THEN Cls(id, "mustnot", "C17", "smb1-reply-flag")
+            ELSE IF S1OtherCommand(seg) THEN Cls(id, "mustnot", "C17", "smb1-other-command")
+            ELSE Cls(id, "any", "C17", "smb1-unspecified")
+      [] id = "SMB2" ->
+            LET d == S2NegotiateDialects(seg)
+                ds == { d[i] : i \in 1..Len(d) }
+            IN
+            IF S2IsReply(seg) THEN Cls(id, "mustnot", "C17", "smb2-reply-flag")
+            ELSE IF S2OtherCommand(seg) THEN Cls(id, "mustnot", "C17", "smb2-other-command")
+            ELSE IF d # << >> /\ ds \cap { 514, 528 } # {} THEN Cls(id, "must", "C17", "smb2-negotiate")
+            ELSE IF d # << >> /\ ds \cap KNOWN_SMB2_DIALECTS = {} THEN Cls(id, "mustnot", "C17", "smb2-no-supported-dialect")
+            ELSE IF S2SessionSetupClean(seg) THEN Cls(id, "must", "C17", "smb2-session-setup")
+            ELSE Cls(id, "any", "C17", "smb2-unspecified")
+      [] OTHER -> Cls(id, "any", "C10", "unspecified")
+
+ClassifyUdp(seg, ctx) ==
+    LET id == RefId(seg, TRUE) IN
+    CASE id = "HTTP" ->
+            LET n == RefPos(seg, TRUE) - 2 IN
+            IF HttpStrict(seg, n).at > 0 THEN Cls(id, "must", "C13", "http-complete-request")
+            ELSE IF HttpLoose(seg, n).at = 0 THEN Cls(id, "mustnot", "C13", "http-malformed-or-unterminated")
+            ELSE Cls(id, "any", "C13", "http-unspecified")
+      [] id = "RPC_UDP" ->
+            IF RpcCleanCall(seg, 0) THEN Cls(id, "must", "C16", "rpc-call")
+            ELSE Cls(id, "any", "C16", "rpc-unspecified")
+      [] id = "RPC_TCP" -> Cls(id, "any", "C16", "rpc-record-marked-datagram")
+      [] id = "none" ->
+            IF DnsIsResponse(seg) THEN Cls("DNS", "mustnot", "C12", "dns-response")
+            ELSE IF DnsTruncated(seg) THEN Cls("DNS", "mustnot", "C14", "dns-truncated")
+            ELSE IF DnsHasOtherQuestion(seg) THEN Cls("DNS", "mustnot", "C14", "dns-question-not-in-a")
+            ELSE IF DnsCleanQuery(seg) /\ ctx.ver = 4 THEN Cls("DNS", "must", "C14", "dns-in-a-query")
+            ELSE Cls("DNS", "any", "C14", "dns-unspecified")
+      [] OTHER -> ClassifyDatagramLike(id, seg, ctx)
+
+ClassifyTcp(before, seg, ctx) ==
+    LET s  == before \o seg
+        id == RefId(s, FALSE)
+        lb == Len(before)
+    IN
+    CASE id = "undecided" -> Cls("none", "mustnot", "C10", "no-signature-completed-yet")
+      [] id = "none" -> Cls("none", "mustnot", "C10", "no-signature")
+      [] id = "HTTP" ->
+            LET n == RefPos(s, FALSE) - 2
+                strict == HttpStrict(s, n)
+                loose == HttpLoose(s, n)
+            IN
+            IF strict.at > lb THEN Cls(id, "must", IF lb = 0 THEN "C13" ELSE "C11", "http-request-completed-by-this-segment")
+            ELSE IF loose.at = 0 THEN Cls(id, "mustnot", IF lb = 0 THEN "C13" ELSE "C11", "http-malformed-or-unterminated")
+            ELSE Cls(id, "any", "C13", "http-unspecified-or-already-complete")
+      [] id = "RPC_TCP" ->
+            IF Len(s) < 44 THEN Cls(id, "mustnot", IF lb = 0 THEN "C16" ELSE "C11", "rpc-call-header-incomplete")
+            ELSE IF RpcCleanCall(s, 4) THEN
+                 LET c  == RpcCall(s, 4)
+                     rl == RmLen(s)
+                     t2 == IF rl[1] = 0 /\ 4 + rl[2] > c.end THEN 4 + rl[2] ELSE c.end
+                 IN IF lb < c.hdrend /\ Len(s) >= t2
+                    THEN Cls(id, "must", IF lb = 0 THEN "C16" ELSE "C11", "rpc-call-completed-by-this-segment")
+                    ELSE IF Len(s) < c.hdrend THEN Cls(id, "mustnot", "C11", "rpc-call-header-incomplete")
+                    ELSE Cls(id, "any", "C16", "rpc-within-record")
+            ELSE Cls(id, "any", "C16", "rpc-unspecified")
+      [] id = "RPC_UDP" -> Cls(id, "any", "C16", "rpc-unframed-over-tcp")
+      [] OTHER -> IF lb = 0 THEN ClassifyDatagramLike(id, seg, ctx)
+                  ELSE Cls(id, "any", "C10", "non-stream-protocol-split")
+
+Classify(transport, before, seg, ctx) ==
+    IF transport = "udp" THEN ClassifyUdp(seg, ctx) ELSE ClassifyTcp(before, seg, ctx)
+
+(* who wrote this reply?  (by its syntax) *)
+ResponderOf(transport, r) ==
+    IF IsHttpResponse(r) THEN "HTTP"
+    ELSE IF IsSshBanner(r) THEN "SSH"
+    ELSE IF IsGhost(r) THEN "GHOST"
+    ELSE IF IsSmb1(r) THEN "SMB1"
+    ELSE IF IsSmb2(r) THEN "SMB2"
+    ELSE IF IsStunResponse(r) /\ StunLen(r) = Len(r) - 20 /\ StunMethod(r) = 1 THEN "STUN"
+    ELSE IF transport = "udp" /\ IsRpcReply(r, 0) THEN "RPC"
+    ELSE IF transport = "tcp" /\ IsRpcReply(r, 4) /\ RmLast(r) THEN "RPC"
+    ELSE IF Len(r) >= 12 /\ DnsQR(r) = 1 THEN "DNS"
+    ELSE "unknown"
+
+Family(id) == IF id \in { "RPC_TCP", "RPC_UDP" } THEN "RPC" ELSE id
+SigResponders == { "HTTP", "SSH", "GHOST", "SMB1", "SMB2", "STUN", "RPC" }
+
+(* protocols that mark this payload as one of their replies (C12) *)
+ReplyTypedBy(transport, s) ==
+    (IF StunReplyTyped(s) THEN { "STUN" } ELSE {})
+    \cup (IF DnsIsResponse(s) THEN { "DNS" } ELSE {})
+    \cup (IF Len(s) >= 8 /\ IsSmb1(s) /\ S1IsReply(s) THEN { "SMB1" } ELSE {})
+    \cup (IF Len(s) >= 8 /\ IsSmb2(s) /\ S2IsReply(s) THEN { "SMB2" } ELSE {})
+    \cup (IF RpcReplyTyped(s, IF transport = "tcp" THEN 4 ELSE 0) THEN { "RPC" } ELSE {})
+
+(* the source-port shifts the statements allow for this payload (C03, C15) *)
+AppPortShift(transport, before, seg) ==
+    IF before # << >> THEN { 0, 1 }
+    ELSE IF RefId(seg, transport = "udp") = "STUN"
+         THEN IF StunCleanRequest(seg) THEN (IF StunChangePort(seg) THEN { 1 } ELSE { 0 }) ELSE { 0, 1 }
+         ELSE { 0 }
+
+RelationFails(c, transport, before, seg, ctx, rpl, aux) ==
+    LET s == before \o seg IN
+    CASE c.proto = "HTTP"  -> Http401Fails(rpl)
+      [] c.proto = "SSH"   -> IF rpl = SSH_REPLY THEN {} ELSE { "ssh-exact-server-banner" }
+      [] c.proto = "GHOST" -> GhostFails(rpl, aux.inflated)
+      [] c.proto = "STUN"  -> StunSuccessFails(seg, rpl, ctx.ver, ctx.src, ctx.sport)
+      [] c.proto = "RPC_UDP" -> RpcReplyFails(seg, 0, rpl, 0, ctx.ver, ctx.dport, aux.uaddr)
+      [] c.proto = "RPC_TCP" -> RpcReplyFails(s, 4, rpl, 4, ctx.ver, ctx.dport, aux.uaddr)
+      [] c.proto = "SMB1"  -> S1ReplyFails(seg, rpl, S1NegotiateCount(seg))
+      [] c.proto = "SMB2"  -> S2ReplyFails(seg, rpl, S2NegotiateDialects(seg))
+      [] c.proto = "DNS"   -> DnsAnswerFails(seg, rpl, ctx.dst)
+      [] OTHER -> {}
+
+(* rpl = << >> means: no application data in response *)
+AppJudge(transport, before, done, seg, ctx, rpl, aux) ==
+    LET c == Classify(transport, before, seg, ctx)
+        answered == rpl # << >>
+        s == before \o seg
+        id == RefId(s, transport = "udp")
+        who == IF answered THEN ResponderOf(transport, rpl) ELSE "nobody"
+        rt == ReplyTypedBy(transport, s)
+    IN
+    (IF c.ans = "mustnot" /\ answered
+     THEN { << c.prop, "answered:" \o c.why >> }
+          \cup (IF rt # {} THEN { << "C12", "reply-typed-message-answered" >> } ELSE {})
+     ELSE {})
+    \cup (IF c.ans = "must" /\ ~answered
+          THEN { << c.prop, "unanswered:" \o c.why >> }
+               \cup (IF c.proto \in SigProtos THEN { << "C10", "unanswered:request-completing-signature" >> } ELSE {})
+          ELSE {})
+    \cup (IF c.ans = "must" /\ answered
+          THEN { << c.prop, t >> : t \in RelationFails(c, transport, before, seg, ctx, rpl, aux) }
+          ELSE {})
+    (* C10: signature-dispatched responders answer only what the signature set identifies *)
+    \cup (IF answered /\ who \in SigResponders /\ id \in { "none", "undecided" }
+          THEN { << "C10", "answered-without-completed-signature" >> } ELSE {})
+    \cup (IF answered /\ who \in SigResponders /\ id \in SigProtos /\ who # Family(id)
+          THEN { << "C10", "answered-by-another-protocols-responder" >> } ELSE {})
+    (* C12: never answered by the protocol whose reply it is; chains die out *)
+    \cup (IF answered /\ who \in rt THEN { << "C12", "reply-answered-by-its-own-protocol" >> } ELSE {})
+    \cup (IF answered /\ aux.chain >= 2 THEN { << "C12", "reflection-chain-longer-than-two" >> } ELSE {})
+    (* C15: other classes and methods get no STUN response *)
+    \cup (IF answered /\ who = "STUN" /\ StunOtherClassOrMethod(seg)
+          THEN { << "C15", "stun-response-to-non-binding-request" >> } ELSE {})
+
+(***************************************************************************)
+(* Known deviation classes (keys listed in KNOWN_FINDINGS.txt).            *)
+(* shadow:<signature>:<position>:<byte> - the compiled matcher loses       *)
+(* signature S when, at one of S's wildcard positions, the payload carries *)
+(* a byte that another signature (still in the race) has there as literal. *)
+(***************************************************************************)
+MustWhys == { "ssh-identification", "gh0st", "stun-binding-request", "smb1-negotiate", "smb1-session-setup",
+              "smb2-negotiate", "smb2-session-setup", "http-complete-request", "rpc-call", "dns-in-a-query",
+              "http-request-completed-by-this-segment", "rpc-call-completed-by-this-segment",
+              "request-completing-signature" }
+UnansweredTags == { "unanswered:" \o y : y \in MustWhys }
+
+ShadowAt(w, p) ==    \* least wildcard position of signature w shadowed in p, or 0
+    LET pat == Sigs[w].pat
+        js == { j \in 1..Len(pat) :
+                  /\ pat[j] = W /\ j <= Len(p)
+                  /\ \E t \in 1..NSig : /\ t # w /\ Len(Sigs[t].pat) >= j
+                                        /\ Sigs[t].pat[j] = p[j]
+                                        /\ \A k \in 1..(j - 1) : Sigs[t].pat[k] = W \/ Sigs[t].pat[k] = p[k] }
+    IN IF js = {} THEN 0 ELSE CHOOSE j \in js : \A k \in js : j <= k
+
+AppKnownKey(v, transport, before, seg) ==
+    LET s == before \o seg
+        w == Winner(s, transport = "udp")
+    IN
+    IF w = 0 THEN "-"
+    ELSE IF v[2] \in UnansweredTags
+    THEN LET j == ShadowAt(w, s) IN
+         IF j # 0 THEN "shadow:" \o Sigs[w].name \o ":" \o ToString(j - 1) \o ":" \o ToString(s[j])
+         ELSE IF transport = "tcp" /\ before # << >> /\ RefPos(s, FALSE) > Len(before) THEN "split-signature"
+         ELSE "-"
+    ELSE "-"
 =============================================================================
